@@ -59,3 +59,39 @@ Theorem C03_interrupted_version_lists_by_the_stitching_function :
       (tr, a, Store.Done {| l_ok := true; l_entries := pstitch_keep keep (view a) (N.to_nat b); l_merr := merr |}).
 Proof. exact list_refines. Qed.
 Print Assumptions C03_interrupted_version_lists_by_the_stitching_function.
+
+(* ---- after the crash: the archive is still a state every operation can start from ---- *)
+From Coq Require Import List NArith.
+From CV Require Import Conf Truth Valid E2E E2EP History HistoryP.
+
+(* A backup stopped at ANY point, by a failure, a kill or a kill that leaves a zero-length
+   file, leaves -- at every intermediate state and at the end -- an archive satisfying
+   [Ready]: header, no lock, well-formed directories, referential integrity (no entry refers
+   to a missing or short block) and format conformance. *)
+Theorem C03_every_crash_state_is_ready :
+  forall (pre : bytes -> N) (c : cfg) (src : list sitem) (a0 : Store.arch) (phi : list fault),
+    Ready pre a0 -> SrcSorted src -> SrcValid src -> SrcWF src ->
+    Forall (Ready pre) (all_states pre (backup_prog pre c src) a0 phi).
+Proof. exact backup_ready_all. Qed.
+Print Assumptions C03_every_crash_state_is_ready.
+
+(* ... hence ("a later backup of the same source completes and restores exactly") a later
+   backup that meets no fault succeeds and restores exactly: instance l1 = [the crashed
+   backup], l2 = [] of the history theorem. *)
+Theorem C03_later_backup_completes_and_restores_exactly :
+  forall (pre : bytes -> N) (l1 : list hop2) (c : cfg) (src : list sitem) (l2 : list hop2) (a0 : Store.arch),
+    Ready pre a0 ->
+    Forall hop2_src_ok (l1 ++ H2Backup c src [] :: l2) -> cfg_ok c ->
+    Forall hop2_unlocking l1 ->
+    let a_before := run_history2 pre a0 l1 in
+    let a_end := run_history2 pre a0 (l1 ++ H2Backup c src [] :: l2) in
+    let b := new_band a_before in
+    Forall (hop2_keeps b) l2 ->
+    backup_completed pre c src a_before [] b
+    /\ FrameP.complete a_end b
+    /\ exists tr rr,
+         run pre (restore_prog (Specified b) keep_all) a_end [] = (tr, a_end, Store.Done rr)
+         /\ r_ok rr = true /\ r_merr rr = 0
+         /\ Forall2 (item_restored c a_before) (known_items src) (r_files rr).
+Proof. exact history_restores_exact_ff. Qed.
+Print Assumptions C03_later_backup_completes_and_restores_exactly.
